@@ -15,6 +15,13 @@ EXTRA_SEEDS = [
     # functions calling each other across two modules (with its own library module)
     ('import m2\npub fn ping(n) { m2.pong(n) }\npub fn top() { ping(1) }\n', 'import m1\npub fn pong(n) { m1.ping(n) }\npub type T { W }\n'),
     ('import m2.{pong}\npub fn ping(n) { pong(n) }\n', 'import m1.{ping}\npub fn pong(n) { ping(n) }\n'),
+    # a cycle of imports through three modules, with the calls going round it (qualified and unqualified)
+    ('import m2\npub fn f1(n) { m2.f2(n) }\npub fn top() { f1(1) }\n', 'import m3\npub fn f2(n) { m3.f3(n) }\n', 'import m1\npub fn f3(n) { m1.f1(n) }\n'),
+    ('import m2.{f2}\npub fn f1(n) { f2(n) }\n', 'import m3.{f3}\npub fn f2(n) { f3(n) + 1 }\n', 'import m1.{f1}\npub fn f3(n) { f1(n) }\n'),
+    # a module that imports itself and calls itself through that import (directly and mutually)
+    'import m1\npub fn f(x) { m1.f(x) }\npub fn g(y) { m1.h(y) }\npub fn h(z) { m1.g(z) }\nfn top() { m1.f(1) }\n',
+    # arities that do not agree: more patterns than subjects (and the surplus binding used), fewer, surplus / missing arguments
+    'fn f(x) { case x { 1, y -> y _ -> x } }\nfn g(x, z) { case x, z { 1 -> x a, b, c -> c } }\nfn h(a) { f(a, a) + g(a) + h() }\nfn i(t) { let #(p, q) = #(t, t, t) p }\n',
     # non-ASCII text in comments, strings and broken places
     '//// модуль 日本語\n/// док 💣\npub fn h() { "こんにちは" <> "é" } // конец\nconst k = "กขค"\nfn i() { let s = "💣💣" s }\n',
     # mutual recursion / recursion groups (the functions of one group are inferred together)
@@ -25,6 +32,14 @@ EXTRA_SEEDS = [
     'import m2.{type A, A}\npub type T { T(x: Int, y: String) U }\npub fn f(t: T) -> Int { case t { T(x: x, ..) -> x U -> 0 } }\nfn g(a: A) { a.a }\nconst s = "é💣"\n',
     '// ünïcode\npub fn h(l: List(Int)) { let [x, ..r] = l use y <- g(x) y + f(r) }\nfn g(x, k) { k(x) }\nfn f(r) { case r { [] -> 0 [a, ..] -> a } }\n',
     'pub type Box(a) { Box(inner: a) }\npub fn map(b: Box(a), f: fn(a) -> b) -> Box(b) { Box(inner: f(b.inner)) }\npub fn main() { Box(1) |> map(fn(x) { x + 1 }) }\n',
+]
+
+
+# Compact seeds for the exhaustive single-step damage (every position x every damage lexeme): small enough for BFS, dense
+# in the constructs whose two sides must agree (labels of callee and caller, subjects and patterns, parameters and arguments).
+BFS_SEEDS = [
+    ('import m2\nfn u(p, q) { m2.mk(b: q, a: p) }\n', 'pub fn mk(a x: Int, b y: String) { #(x, y) }\n'),
+    'fn f(a, b) { case a, b { 1, c -> c _, _ -> f(b, a) } }\n',
 ]
 
 
@@ -49,7 +64,7 @@ def seeds(out, tier, seed, n_gen):
         res.append({"files": [{"name": "m1", "lex": l}, {"name": "m2", "lex": liblex}]})
     for t in EXTRA_SEEDS:
         if isinstance(t, tuple):
-            res.append({"files": [{"name": "m1", "lex": lex(t[0])}, {"name": "m2", "lex": lex(t[1])}]})
+            res.append({"files": [{"name": f"m{i + 1}", "lex": lex(x)} for i, x in enumerate(t)]})
         else:
             res.append({"files": [{"name": "m1", "lex": lex(t)}, {"name": "m2", "lex": liblex}]})
     for f in sorted(glob.glob(os.path.join(vlib.VERIF, "corpus", "**", "*.gleam"), recursive=True)):
@@ -68,9 +83,9 @@ def extra_truncations():
     liblex = lex(LIB)
     res = []
     for t in EXTRA_SEEDS:
-        m1, m2 = (lex(t[0]), lex(t[1])) if isinstance(t, tuple) else (lex(t), liblex)
-        for i in range(1, len(m1)):
-            res.append({"files": [{"name": "m1", "lex": m1[:i]}, {"name": "m2", "lex": m2}], "steps": 1})
+        ms = [lex(x) for x in t] if isinstance(t, tuple) else [lex(t), liblex]
+        for i in range(1, len(ms[0])):
+            res.append({"files": [{"name": "m1", "lex": ms[0][:i]}] + [{"name": f"m{k + 2}", "lex": m} for k, m in enumerate(ms[1:])], "steps": 1})
     return res
 
 
@@ -86,7 +101,7 @@ def write_seeds(ws, name):
 def damaged_workspaces(out, tier, seed):
     """Workspace.tla, mode damage (BFS over single steps from two small seeds) + histories (multi-step)."""
     allseeds = seeds(out, tier, seed, 12 if tier == "quick" else 60)
-    small = sorted(allseeds, key=lambda w: sum(len(f["lex"]) for f in w["files"]))[:(1 if tier == "quick" else 4)]
+    small = bfs_seeds(allseeds, tier)
     sp = write_seeds(small, "ws-seeds-bfs")
     r = vlib.tlc("Workspace", "Workspace_damage.cfg", workers=8, timeout=3000, heap="8g", env={"SEEDS": sp}, coverage=(tier == "quick"))
     vlib.require_ok(r, "Workspace damage")
@@ -99,6 +114,34 @@ def damaged_workspaces(out, tier, seed):
             if st["op"]["k"] != "query":
                 multi.append({"files": st["files"], "steps": 2})
     return ws, multi + extra_truncations(), allseeds
+
+
+def bfs_seeds(allseeds, tier):
+    """the seeds of the exhaustive single-step damage: the smallest generated program(s) and the compact hand-written ones"""
+    liblex = lex(LIB)
+    small = sorted(allseeds, key=lambda w: sum(len(f["lex"]) for f in w["files"]))[:(1 if tier == "quick" else 4)]
+    for t in BFS_SEEDS:
+        ms = [lex(x) for x in t] if isinstance(t, tuple) else [lex(t), liblex]
+        small.append({"files": [{"name": f"m{k + 1}", "lex": m} for k, m in enumerate(ms)]})
+    return small
+
+
+def single_step_histories(out, tier, seed, allseeds):
+    """C11: every workspace one damage step from a BFS seed, as two histories: seed -> damaged and damaged -> seed"""
+    small = bfs_seeds(allseeds, tier)
+    sp = write_seeds(small, "ws-seeds-bfs11")
+    r = vlib.tlc("Workspace", "Workspace_damage.cfg", workers=8, timeout=3000, heap="8g", env={"SEEDS": sp}, name="Workspace-damage-c11")
+    vlib.require_ok(r, "Workspace damage")
+    out.add_tlc(r, "GEN Workspace single-step damage (BFS) as histories")
+    hs = []
+    for c in r.cases():
+        if c["steps"] != 1:
+            continue
+        s = small[c["seed"] - 1]["files"]
+        a = {"op": {"k": "seed", "f": 0, "i": 0, "x": ""}, "files": s, "dep": True, "dup": False, "batched": False}
+        b = {"op": {"k": "damage", "f": 0, "i": 0, "x": ""}, "files": c["files"], "dep": True, "dup": False, "batched": False}
+        hs.append((a, b))
+    return hs
 
 
 def histories(out, tier, seed, allseeds, n):
